@@ -2,6 +2,7 @@
 import ast
 
 from ..core import (
+    bound_args,
     strip_docstring,
     AnalysisError,
     obl,
@@ -56,8 +57,23 @@ def _dict_literal(node):
 
 
 def run(prog, rep, tier):
-    ex = G.extract(prog)
-    S = G.summaries(ex)
+    # rules that need no grammar model first: when the extraction below meets an unmodelled node class (say a constructor that
+    # converts its value), what they found is still reported and the extraction error only matters if nothing else fired
+    class _Ctx0:
+        pass
+
+    c0 = _Ctx0()
+    c0.prog = prog
+    r12_9(c0, rep)
+    rep.floor("R12.9", 4)
+    from . import shared as _sh0
+    _sh0.formula_text_untouched(prog, rep, "R12.8")
+    try:
+        ex = G.extract(prog)
+        S = G.summaries(ex)
+    except AnalysisError as e:
+        rep.defer(str(e))
+        return
     sm, _ = extract_scan_token(prog)
     kind2lex = {}
     for lex, (kind, line) in sm.table.items():
@@ -419,6 +435,43 @@ def r12_4(ctx, rep):
             "I() is not the identity")
     else:
         rep.bad("R12.4", prog.mod("transforms").relpath + ":1", "formulae.transforms", "TRANSFORMS['I'] is a function", f"TRANSFORMS['I'] = {kind} {q}")
+
+
+def r12_9(ctx, rep):
+    """a literal inside a call is the Python literal: the value the scanner built reaches the evaluation untouched.
+    Literal.__init__ and LazyValue.__init__ store their parameters as given, CallResolver.visitLiteralExpr hands expr.value on,
+    LazyValue.eval returns the stored value."""
+    prog = ctx.prog
+
+    def stores_as_given(f, attrs):
+        me = f.params[0]
+        rebound = [n for n in ast.walk(f.node) if isinstance(n, ast.Name) and n.id in f.params and isinstance(n.ctx, (ast.Store, ast.Del))]
+        got = {}
+        for st in walk_local(f.node):
+            if isinstance(st, ast.Assign):
+                for tg in st.targets:
+                    if isinstance(tg, ast.Attribute) and isinstance(tg.value, ast.Name) and tg.value.id == me:
+                        got.setdefault(tg.attr, []).append(unparse(st.value))
+        return not rebound and all(got.get(a) == [a] for a in attrs), rebound, got
+
+    for q, attrs in (("expr.Literal.__init__", ["value", "lexeme"]), ("terms.call_resolver.LazyValue.__init__", ["value", "lexeme"])):
+        f = prog.fn(q)
+        ok, rebound, got = stores_as_given(f, attrs)
+        obl(rep, f, rebound[0] if rebound else f.node, "R12.9", ok, f"{q.split('.')[-2]} stores its value and lexeme exactly as given", "",
+            f"{q.split('.')[-2]}.__init__ does not keep the value it is given (re-bound parameter / converted value): {got}")
+    v = prog.fn("terms.call_resolver.CallResolver.visitLiteralExpr")
+    rets = [n for n in walk_local(v.node) if isinstance(n, ast.Return)]
+    ini = prog.fn("terms.call_resolver.LazyValue.__init__")
+    ok = len(rets) == 1 and isinstance(rets[0].value, ast.Call) and unparse(rets[0].value.func) == "LazyValue" and not cfg_of(v).falls_off()
+    if ok:
+        b = bound_args(ini.node, rets[0].value, skip_first=True)
+        ok = b is not None and b.get("value") == f"{v.params[1]}.value" and b.get("lexeme") == f"{v.params[1]}.lexeme"
+    obl(rep, v, v.node, "R12.9", ok, "visitLiteralExpr hands the literal's own value and lexeme to LazyValue")
+    e = prog.fn("terms.call_resolver.LazyValue.eval")
+    rets = [n for n in walk_local(e.node) if isinstance(n, ast.Return)]
+    ok = len(rets) == 1 and unparse(rets[0].value) == f"{e.params[0]}.value" and not cfg_of(e).falls_off() \
+        and not [s_ for s_ in walk_local(e.node) if isinstance(s_, (ast.Assign, ast.AugAssign))]
+    obl(rep, e, e.node, "R12.9", ok, "LazyValue.eval returns the stored value")
 
 
 def r12_5(ctx, rep):
